@@ -796,7 +796,11 @@ fn run_history(g: &mut SplitMix64, h: &Hist, st: &mut Stats) -> usize {
     };
     let mut lines = 0;
     for step in 0..h.len {
-        mutate(g, h, &mut c, st);
+        // a public mutation inside its valid domain must not panic (the sub-sweeps go through the hint fill)
+        if let Err(e) = catch(|| mutate(g, h, &mut c, st)) {
+            emit(true, &format!("histpanic {}", step), "panic", Some(Err(format!("a valid public mutation panicked: {}", e))));
+            return lines + 1;
+        }
         if c.get_cutoff() == 0 {
             continue;
         }
